@@ -1060,7 +1060,7 @@ func c11Primitives(c *Ctx) {
 		var bad []string
 		kinds := map[string]bool{}
 		for _, cf := range ge.Calls(fn, nil, nil, nil, 0, map[*ssa.Function]int{}) {
-			if len(cf.Chain) != 1 || cf.Callee == nil || FuncName(cf.Callee) != "(*types.Decoder).SetErr" || len(cf.Args) != 2 {
+			if len(cf.Chain) != 1 || cf.Callee == nil || FuncName(cf.Callee) != "(types.Decoder).SetErr" || len(cf.Args) != 2 {
 				continue
 			}
 			ctx := strings.Join(cf.Ctx, " && ")
@@ -1080,7 +1080,7 @@ func c11Primitives(c *Ctx) {
 				bad = append(bad, fmt.Sprintf("%s rejects when %s (%s)", c.P.Pos(cf.Pos), ifElse(ctx == "", "always", ctx), cf.Args[1]))
 			}
 		}
-		c.Check(len(bad) == 0, "primitive-symmetry", "(*types.Decoder)."+fn.Name(), c.P.Pos(fn.Pos()), ifElse(len(bad) == 0, "rejects only "+ifElse(len(kinds) == 0, "nothing of its own", strings.Join(sortedKeys(kinds), ", ")), "a decoder primitive rejects a value its encoder counterpart can write: "+strings.Join(bad, "; ")))
+		c.Check(len(bad) == 0, "primitive-symmetry", "(types.Decoder)."+fn.Name(), c.P.Pos(fn.Pos()), ifElse(len(bad) == 0, "rejects only "+ifElse(len(kinds) == 0, "nothing of its own", strings.Join(sortedKeys(kinds), ", ")), "a decoder primitive rejects a value its encoder counterpart can write: "+strings.Join(bad, "; ")))
 	}
 	c.Min("primitive-symmetry", 6)
 	_ = n
